@@ -122,6 +122,10 @@ def runNode (ws : List String) : String :=
   | ["stop", m, sc, p] => match p.toNat? with
     | some p => runNodeStop m sc p
     | none => "bad-case"
+  | ["earlyburst", m, n] => match n.toNat? with
+    -- Accepted and n messages cached; ten messages and the Disconnected live
+    | some n => if n ≤ 100000 then runNodeEarly m (n + 1) 11 else "bad-case"
+    | none => "bad-case"
   | ["earlybusy", m, _] => runNodeEarlyBusy m
   | ["early", m, c, l] => match c.toNat?, l.toNat? with
     | some c, some l => runNodeEarly m c l
